@@ -207,7 +207,7 @@ func (tm *TypeMap) Zero(t types.Type) string {
 		}
 		return app("mk."+s, fs...)
 	case *types.Array:
-		return fmt.Sprintf("((as const (Array Int %s)) %s)", tm.Sort(u.Elem()), tm.Zero(u.Elem()))
+		return tm.ConstArray(tm.Sort(u.Elem()), tm.Zero(u.Elem()))
 	}
 	return "0"
 }
@@ -282,3 +282,17 @@ func (tm *TypeMap) Key(t types.Type) string {
 }
 func (tm *TypeMap) MapHas(k, v string) string        { return "MH." + sortName(k) + "." + sortName(v) }
 func (tm *TypeMap) MapVal(k, v string) string        { return "MV." + sortName(k) + "." + sortName(v) }
+
+// ConstArray returns the array whose every element is zero. cvc5 only accepts literal values in `as const`, so for
+// sorts whose zero is an uninterpreted constant (Str, Any, Iface, structs containing them) a named array with a
+// quantified definition is used instead.
+func (tm *TypeMap) ConstArray(sort, zero string) string {
+	literal := sort == SInt || sort == SBool || sort == SSlice || sort == SBV || sort == "Real"
+	if literal {
+		return fmt.Sprintf("((as const (Array Int %s)) %s)", sort, zero)
+	}
+	name := "K." + sortName(sort)
+	tm.d.Const(name, fmt.Sprintf("(Array Int %s)", sort))
+	tm.d.Axiom(fmt.Sprintf("(forall ((i!q Int)) (! (= (select %s i!q) %s) :pattern ((select %s i!q))))", name, zero, name))
+	return name
+}
